@@ -1,4 +1,5 @@
 import MorfuseModel.PtrCell.Lemmas
+import MorfuseModel.PtrCell.CallLemmas
 import MorfuseModel.Sched.Machine
 import MorfuseModel.Sched.MachineInstHost
 import MorfuseModel.Sched.MachineInstCalls
@@ -16,6 +17,11 @@ Three pieces, each proved for all sizes and histories:
   `end` clears them, and destroying one sharer (the VM of a killed thread) leaves the others
   pending;
 * **label not found** leaves the machine state untouched (no thread, no script instance).
+
+* **the protocol on cells** (`PtrCell/Call.lean`: call records, `SetFastData`, the `STORE_PARAM` sequence on the
+  variable lists of every scope, `end <expr>`, `thread`): a parameter without an argument reads NIL after
+  binding *whatever its variable held before* (`C05_bind_overwrites_stale`), and handing a record to a call
+  leaves every value of it in the record (`C05_setfast_keeps_record`).
 
 Checked by correspondence, not proved: that `ScriptThread::Execute(Event&)` / `ScriptVM::End` perform
 exactly these cell operations (the `ret=` field of every host call and `thread-result`, for
@@ -338,3 +344,66 @@ example : ∃ s, run init demoOps = some s ∧ listOf s 1 = [2, 3] ∧
     Tbl.push, Tbl.removeAll, Tbl.find, Tbl.getD, Tbl.removeKey, Mem.get_set]
 
 end Morfuse.PtrCell
+
+namespace Morfuse.CallRec
+open Morfuse.PtrCell (Op)
+
+/-- **Missing arguments are NIL, whatever was there.**  The parameter list of a label (`bindAll`: what the
+    thread executes when it starts at, or falls into, the label) with the VM's argument buffer `fast` and
+    index `fastIndex`: every declared parameter `i` for which no argument is left
+    (`fast.length ≤ fastIndex + i`) names, afterwards, a variable that reads NIL — for parameters of every
+    scope (`local`, `level`, `game`, `parm`, `group`), for every previous content of that variable (a value set
+    by an earlier call, by the code in front of the label, a pending result), also when the same variable is
+    declared twice.  (`stuck = false`: every statement was a legal step of the cell model; the driver reports
+    a stuck run, none occurs in the correspondence.) -/
+theorem C05_bind_overwrites_stale (ps : List Tgt) (s : State) (th : Th)
+    (hns : (bindAll s th ps).1.stuck = false) (i : Nat) (hi : i < ps.length)
+    (hex : th.fast.length ≤ th.fastIndex + i) :
+    ∃ c, lookup (bindAll s th ps).1 th (ps.getD i default) = some c ∧ (bindAll s th ps).1.cells.kind.get c = 0 :=
+  bindAll_unmatched_nil ps s th hns i hi hex
+
+/-- **Arguments stay in the host's record.**  `SetFastData(view)` (`copyCells`) gives the thread copies: every
+    variable that existed before — every slot of every call record, a still-pending result of an earlier call
+    made with the same record included — has the kind and value it had. -/
+theorem C05_setfast_keeps_record (s : State) (l : List Nat) (x : Nat) (hx : x < s.nextCell) :
+    (copyCells s l).2.cells.kind.get x = s.cells.kind.get x ∧ (copyCells s l).2.cells.val.get x = s.cells.val.get x :=
+  copyCells_frame s l ([], s) (Nat.le_refl _) (fun _ _ => ⟨rfl, rfl⟩) x hx
+
+/-- **`end <pending result>` inside the call.**  The started thread ends while only the host's `returnValue`
+    (`r`) and the VM's `m_ReturnValue` (`a`) share its result cell, with a value `tmp` that is itself a pending
+    result (kind Pointer: the result cell of a helper thread that still waits).  Afterwards `returnValue` *is*
+    that pending result — kind Pointer, the helper's holder — so it is not None and `Execute(Event&)` appends it
+    to the record; being a live Pointer variable it is listed by the helper's holder (`C05_every_sharer_listed`)
+    and receives the helper's value when the helper ends (`C05_result_reaches_every_sharer`). -/
+theorem C05_end_pending_result_handed_over {s : State} {a tmp r : Nat} (hp : PtrCell.isPtr s.cells a = true)
+    (hk : s.cells.kind.get tmp = 2) (hl : PtrCell.listOf s.cells (s.cells.val.get a) = [r, a])
+    (hra : r ≠ a) (hrt : r ≠ tmp) (hrn : r ≠ s.nextCell) (hns : (endFrom s a tmp).stuck = false) :
+    (endFrom s a tmp).cells.kind.get r = 2 ∧ (endFrom s a tmp).cells.val.get r = s.cells.val.get tmp :=
+  endFrom_pending_two hp hk hl hra hrt hrn hns
+
+/-! non-vacuity: `level.v0` holds 7 from an earlier call; a call without arguments binds `level.v0` -/
+def demoTh : Th := { tid := 100, inst := 1, sec := 1, ret := 9 }
+def staleState : State := setLit (getOrCreate {} demoTh ⟨1, 0⟩).2 1 (some 7)
+
+example : lookup staleState demoTh ⟨1, 0⟩ = some 1 ∧ staleState.cells.kind.get 1 = 1 ∧ staleState.cells.val.get 1 = 7 := by
+  simp [staleState, setLit, getOrCreate, lookup, key, ap, PtrCell.step, PtrCell.writeInt, PtrCell.clearInternal,
+    PtrCell.isPtr]
+
+example : (bindAll staleState demoTh [⟨1, 0⟩]).1.stuck = false ∧
+    (bindAll staleState demoTh [⟨1, 0⟩]).1.cells.kind.get 1 = 0 := by
+  simp [bindAll, bindOne, setNil, staleState, setLit, getOrCreate, lookup, key, ap, PtrCell.step, PtrCell.writeInt,
+    PtrCell.writeNone, PtrCell.setData, PtrCell.clearInternal, PtrCell.isPtr, Mem.get_set, demoTh]
+
+/-! non-vacuity: returnValue = 1 and m_ReturnValue = 2 share holder 1, cell 3 is the pending result of a helper -/
+def handOver : State :=
+  ap (ap (ap (ap (ap (ap { nextCell := 4 } (.newCell 1)) (.newPointer 1)) (.newCell 2)) (.assign 1 2)) (.newCell 3)) (.newPointer 3)
+
+example : PtrCell.isPtr handOver.cells 2 = true ∧ handOver.cells.kind.get 3 = 2 ∧
+    PtrCell.listOf handOver.cells (handOver.cells.val.get 2) = [1, 2] ∧ handOver.nextCell = 4 ∧
+    (endFrom handOver 2 3).stuck = false ∧ (endFrom handOver 2 3).cells.kind.get 1 = 2 ∧
+    (endFrom handOver 2 3).cells.val.get 1 = 2 := by
+  simp [handOver, endFrom, setNil, ap, PtrCell.step, PtrCell.isPtr, PtrCell.listOf, PtrCell.setData, PtrCell.writeNone,
+    PtrCell.clearInternal, PtrCell.holderRemove, Morfuse.Sched.Tbl.push, Morfuse.Sched.Tbl.removeAll,
+    Morfuse.Sched.Tbl.find, Morfuse.Sched.Tbl.getD, Morfuse.Sched.Tbl.removeKey, Mem.get_set]
+
+end Morfuse.CallRec
